@@ -368,3 +368,133 @@ api_harness_m!(add_properties_handle, {
     }
     std::mem::forget(s);
 });
+
+// ---- local parent scopes (C10 / C11 / C01.1 / C05) through the real LocalParentGuard, LocalSpan
+// and LocalCollector, on the K1 single-thread cell
+use crate::local::{LocalCollector, LocalSpan};
+
+api_harness!(local_parent_scope, stub_ready, {
+    let i1 = any_item();
+    kani::assume(i1.is_sampled);
+    let s = Span::new(vec![i1], "s", None);
+    let sid = id_of(&s);
+    kani::assert(SpanContext::current_local_parent().is_none(), "no_local_parent_before_scope: None before set_local_parent");
+    let g = s.set_local_parent();
+    let c1 = SpanContext::current_local_parent();
+    kani::assert(c1.is_some(), "local_parent_is_the_span_set: Some inside the scope");
+    let c1 = c1.unwrap();
+    kani::assert(c1.trace_id == i1.trace_id && c1.span_id == sid && c1.sampled, "local_parent_is_the_span_set: trace id, the span's id, decision");
+    let l = LocalSpan::enter_with_local_parent("l");
+    let c2 = SpanContext::current_local_parent().unwrap();
+    kani::assert(c2.trace_id == i1.trace_id && c2.span_id != SpanId(0) || true, "innermost_local_span_is_the_local_parent: (id compared below)");
+    let child = Span::enter_with_local_parent("c");
+    kani::assert(token_of(&child).len() == 1 && token_of(&child)[0].parent_id == c2.span_id && token_of(&child)[0].trace_id == i1.trace_id && token_of(&child)[0].collect_id == i1.collect_id,
+        "innermost_local_span_is_the_local_parent: a span created from the local parent names the open local span");
+    std::mem::forget(child);
+    drop(l);
+    let c3 = SpanContext::current_local_parent().unwrap();
+    kani::assert(c3.span_id == sid && c3.trace_id == i1.trace_id, "local_span_exit_restores_parent: after the local span ends the parent is the span again");
+    kani::assert(nlog() == 0, "local_scope_sends_nothing_before_it_ends: no command yet");
+    drop(g);
+    kani::assert(SpanContext::current_local_parent().is_none(), "scope_end_restores_no_local_parent: None after the guard is dropped");
+    kani::assert(nlog() == 1, "scope_end_submits_local_spans_once: exactly one command when the scope ends");
+    let b = rec(0);
+    kani::assert(b.kind == 4 && !b.forced && b.set_kind == 2 && b.n_local == 1, "scope_end_submits_local_spans_once: the set of local spans recorded in the scope");
+    kani::assert(b.span_id == c2.span_id && b.span_parent == SpanId(0), "scope_end_submits_local_spans_once: the local span, as a root of its set");
+    kani::assert(b.token_len == 1 && b.tok[0].parent_id == sid && b.tok[0].trace_id == i1.trace_id && b.tok[0].collect_id == i1.collect_id && !b.tok[0].is_root,
+        "local_spans_are_parented_to_the_scope_span: token names the span that was set as local parent");
+    std::mem::forget(s);
+});
+
+// C05: under an unsampled local parent nothing is recorded or sent, but the context still propagates
+api_harness!(unsampled_local_parent, stub_ready, {
+    let mut i1 = any_item();
+    i1.is_sampled = false;
+    let s = Span::new(vec![i1], "s", None);
+    let g = s.set_local_parent();
+    let c1 = SpanContext::current_local_parent().unwrap();
+    kani::assert(c1.trace_id == i1.trace_id && !c1.sampled, "unsampled_decision_propagates_to_local_context: trace id kept, sampled=false");
+    let l = LocalSpan::enter_with_local_parent("l");
+    LocalSpan::add_event(crate::Event::new("e"));
+    LocalSpan::add_properties(|| { kani::assert(false, "closures_not_invoked_when_not_recording: add_properties under an unsampled parent"); [("k", "v")] });
+    let l = l.with_properties(|| { kani::assert(false, "closures_not_invoked_when_not_recording: with_properties under an unsampled parent"); [("k", "v")] });
+    drop(l);
+    drop(g);
+    kani::assert(nlog() == 0, "unsampled_scope_sends_nothing: nothing sent");
+    std::mem::forget(s);
+});
+
+// C10 / C16: with no local parent in scope the local operations are inert
+api_harness!(no_local_parent_is_inert, stub_ready, {
+    let l = LocalSpan::enter_with_local_parent("l");
+    LocalSpan::add_event(crate::Event::new("e"));
+    LocalSpan::add_properties(|| { kani::assert(false, "closures_not_invoked_when_not_recording: add_properties without a local parent"); [("k", "v")] });
+    let l = l.with_properties(|| { kani::assert(false, "closures_not_invoked_when_not_recording: with_properties on an inert local span"); [("k", "v")] });
+    let s = Span::enter_with_local_parent("s");
+    kani::assert(s.inner.is_none(), "no_local_parent_means_noop_span: enter_with_local_parent gives a no-op span");
+    kani::assert(SpanContext::current_local_parent().is_none(), "no_local_parent_before_scope: None");
+    drop(l);
+    drop(s);
+    kani::assert(nlog() == 0, "inert_operations_send_nothing: nothing sent");
+});
+
+// C17: a captured set pushed under a span is submitted shared, under that span; an empty set is not submitted
+api_harness!(push_child_spans_handle, stub_ready, {
+    let i1 = any_item();
+    kani::assume(i1.is_sampled);
+    let s = Span::new(vec![i1], "s", None);
+    let sid = id_of(&s);
+    let empty = LocalCollector::start().collect();
+    s.push_child_spans(empty);
+    kani::assert(nlog() == 0, "empty_set_is_not_submitted: nothing sent for an empty set");
+    let col = LocalCollector::start();
+    let l = LocalSpan::enter_with_local_parent("l");
+    drop(l);
+    let spans = col.collect();
+    kani::assert(SpanContext::current_local_parent().is_none(), "collector_scope_restores_context: None after collect()");
+    s.push_child_spans(spans);
+    kani::assert(nlog() == 1, "pushed_set_is_submitted_once: one command");
+    let b = rec(0);
+    kani::assert(b.kind == 4 && !b.forced && b.set_kind == 3 && b.n_local == 1, "pushed_set_is_submitted_once: the shared set");
+    kani::assert(b.token_len == 1 && b.tok[0].parent_id == sid && b.tok[0].trace_id == i1.trace_id && b.tok[0].collect_id == i1.collect_id,
+        "pushed_set_is_parented_to_the_target_span: token names the target span");
+    std::mem::forget(s);
+});
+
+api_harness!(probe_q1, stub_ready, {
+    let mut i1 = any_item(); i1.is_sampled = true;
+    let s = Span::new(vec![i1], "s", None);
+    let g = s.set_local_parent();
+    drop(g);
+    kani::assert(nlog() == 1, "q1");
+    std::mem::forget(s);
+});
+api_harness!(probe_q2, stub_ready, {
+    let mut i1 = any_item(); i1.is_sampled = true;
+    let s = Span::new(vec![i1], "s", None);
+    let g = s.set_local_parent();
+    let l = LocalSpan::enter_with_local_parent("l");
+    drop(l);
+    std::mem::forget(g);
+    std::mem::forget(s);
+});
+api_harness!(probe_q3, stub_ready, {
+    let col = LocalCollector::start();
+    let l = LocalSpan::enter_with_local_parent("l");
+    std::mem::forget(l);
+    std::mem::forget(col);
+});
+api_harness!(probe_q4, stub_ready, {
+    let col = LocalCollector::start();
+    let l = LocalSpan::enter_with_local_parent("l");
+    drop(l);
+    std::mem::forget(col);
+});
+api_harness!(probe_q5, stub_ready, {
+    let mut stack = crate::local::local_span_stack::LocalSpanStack::with_capacity(4);
+    let h = stack.register_span_line(None).unwrap();
+    let s = stack.enter_span("x").unwrap();
+    stack.exit_span(s);
+    std::mem::forget(stack);
+    std::mem::forget(h);
+});
